@@ -471,6 +471,8 @@ class Evaluator:
             for x in e.elts:
                 if isinstance(x, ast.Starred):
                     inner = self.expr(x.value)
+                    if isinstance(inner, SymBytes):
+                        inner = list(inner.items)
                     if not isinstance(inner, (list, tuple)):
                         raise Unsupported(f"starred `{norm(x)}`")
                     out.extend(inner)
@@ -520,6 +522,14 @@ class Evaluator:
             c = self.expr(e.test)
             if isinstance(c, bool):
                 return self.expr(e.body) if c else self.expr(e.orelse)
+            if isinstance(c, SymInt) and c.width() == 1:
+                # a one-bit flag chooses between two values: merge them bit by bit (flag ? 1 : 0 is the flag itself)
+                a, b = as_sym(self.expr(e.body)), as_sym(self.expr(e.orelse))
+                bits = []
+                for i in range(max(a.width(), b.width())):
+                    x, y = a.bit(i), b.bit(i)
+                    bits.append(x if x == y else (c.bits[0] if (x == 1 and y == 0) else TOP))
+                return SymInt(bits)
             raise Unsupported(f"conditional expression on symbolic value `{norm(e)}`")
         raise Unsupported(f"expression `{norm(e)}`")
 
@@ -629,8 +639,15 @@ class Evaluator:
                 res = None
                 if a.is_const():
                     res = a.value() == c
-                elif c == 1 and a.width() == 1:
-                    return SymInt([a.bits[0]]) if isinstance(op, ast.Eq) else _unsupported("!= 1 on a one-bit value")
+                elif c in (0, 1) and sum(1 for b_ in a.bits if b_ != 0) == 1 and all(b_ in (0,) or isinstance(b_, tuple) for b_ in a.bits):
+                    # exactly one bit of the value is not known to be 0: `v != 0`, `v == <that bit's weight>` read that bit
+                    k_ = next(i for i, b_ in enumerate(a.bits) if b_ != 0)
+                    if c == 0:
+                        if isinstance(op, ast.NotEq):
+                            return SymInt([a.bits[k_]])
+                        return _unsupported("== 0 on a single-bit mask (negated flag)")
+                    if c == 1 and k_ == 0:
+                        return SymInt([a.bits[0]]) if isinstance(op, ast.Eq) else _unsupported("!= 1 on a one-bit value")
                 elif c > hi or c < lo:
                     res = False
                 if res is not None:
@@ -694,6 +711,20 @@ class Evaluator:
             if isinstance(a, bytes):
                 return SymBytes([SymInt.const(x) for x in a])
             raise Unsupported(f"`{norm(e)}`")
+        if isinstance(e.func, ast.Attribute) and e.func.attr == "to_bytes" and 1 <= len(args) <= 2:
+            # n.to_bytes(k, "big"): the k low bytes of n, most significant first; n must fit (OverflowError otherwise)
+            n = as_sym(self.expr(e.func.value))
+            k = args[0].value() if isinstance(args[0], SymInt) and args[0].is_const() else args[0]
+            order = args[1] if len(args) > 1 else kwargs.get("byteorder", "big")
+            if not isinstance(k, int) or order not in ("big", "little"):
+                raise Unsupported(f"`{norm(e)}`")
+            hi = n.value() if n.is_const() else n.hi
+            if hi is not None and hi >= 1 << (8 * k):
+                raise PackOverflow(f"to_bytes({k})", "B" * k, n)
+            items = [SymInt([n.bit(8 * i + j) for j in range(8)]) for i in range(k)]
+            if order == "big":
+                items.reverse()
+            return SymBytes(items)
         if name == "struct.pack":
             return pack(args[0], args[1:])
         if name in ("struct.unpack", "struct.unpack_from"):
